@@ -470,6 +470,8 @@ def _pow(a, b):
 
 
 def _cmp(a, b, op):
+    if isinstance(a, NonFinite) or isinstance(b, NonFinite):
+        return _cmp_nonfinite(a, b, op)
     if isinstance(a, SymChoice) or isinstance(b, SymChoice):
         x, y = (a, b) if isinstance(a, SymChoice) else (b, a)
         if op == "==":
@@ -537,6 +539,8 @@ class ExpCell(SN):
         self.arg = arg if isinstance(arg, SN) else SN(lift(arg))
         t = core.uf_decl("EXP", 1)(core.z3.ToReal(self.arg.e) if self.arg.is_int() else self.arg.e)
         SN.__init__(self, t)
+        if core.Ctx.cur is not None:
+            core.Ctx.cur.add_side(t > 0)          # exp is positive
 
     def _c(self, o, op):
         if isinstance(o, ExpCell):
@@ -551,6 +555,8 @@ class ExpCell(SN):
 
 def exp(x):
     def cell(c):
+        if isinstance(c, NonFinite):
+            return c.exp()
         if is_sym(c):
             return ExpCell(c)
         import math
@@ -789,12 +795,54 @@ def isnan(x):
 
 
 class NonFinite:
-    """a concrete non-finite cell (nan / +inf / -inf) living in a symbolic array"""
+    """a concrete non-finite cell (nan / +inf / -inf) living in a symbolic array, with IEEE semantics for the
+    operations the repository applies to likelihood values: + - with finite numbers, ordering, exp, isfinite"""
+    __array_ufunc__ = None
+
     def __init__(self, kind):
+        assert kind in ("nan", "inf", "-inf")
         self.kind = kind
 
     def __repr__(self):
         return "NonFinite(%s)" % self.kind
+
+    def _neg(self):
+        return NonFinite({"inf": "-inf", "-inf": "inf", "nan": "nan"}[self.kind])
+
+    def _add(self, o):
+        if isinstance(o, NonFinite):
+            if "nan" in (self.kind, o.kind) or self.kind != o.kind:
+                return NonFinite("nan")
+            return NonFinite(self.kind)
+        return NonFinite(self.kind)
+
+    def __add__(self, o): return self._add(o)
+    __radd__ = __add__
+    def __sub__(self, o): return self._add(o._neg() if isinstance(o, NonFinite) else o)
+    def __rsub__(self, o): return self._neg()._add(o)
+    def __neg__(self): return self._neg()
+
+    def __mul__(self, o):
+        if isinstance(o, (int, float)) and not isinstance(o, bool) and o != 0:
+            return NonFinite(self.kind) if o > 0 else self._neg()
+        raise UnsupportedByShim("product of a non-finite value with a symbolic / zero factor")
+    __rmul__ = __mul__
+
+    def exp(self):
+        return {"-inf": 0.0, "inf": NonFinite("inf"), "nan": NonFinite("nan")}[self.kind]
+
+
+def _cmp_nonfinite(a, b, op):
+    """IEEE ordering with concrete non-finite operands (finite operands are arbitrary finite reals)"""
+    ka = a.kind if isinstance(a, NonFinite) else "fin"
+    kb = b.kind if isinstance(b, NonFinite) else "fin"
+    if "nan" in (ka, kb):
+        return op == "!="
+    rank = {"-inf": -1, "fin": 0, "inf": 1}
+    if ka == kb:            # both the same infinity
+        return op in ("==", "<=", ">=")
+    ra, rb = rank[ka], rank[kb]
+    return {"<": ra < rb, "<=": ra < rb, ">": ra > rb, ">=": ra > rb, "==": False, "!=": True}[op]
 
 
 class FinCell(SN):
@@ -856,16 +904,31 @@ def _nonempty(cells, what):
     return cells
 
 
+def _extreme(cells, what):
+    """max / min with IEEE non-finite cells: nan propagates, the dominating infinity wins, the other one is ignored"""
+    _nonempty(cells, what)
+    nf = [c for c in cells if isinstance(c, NonFinite)]
+    if builtins.any(c.kind == "nan" for c in nf):
+        return NonFinite("nan")
+    top, bottom = ("inf", "-inf") if what == "maximum" else ("-inf", "inf")
+    if builtins.any(c.kind == top for c in nf):
+        return NonFinite(top)
+    rest = [c for c in cells if not isinstance(c, NonFinite)]
+    if not rest:
+        return NonFinite(bottom)
+    return core.sym_max(rest) if what == "maximum" else core.sym_min(rest)
+
+
 def amax(x, axis=None):
     if hasattr(x, "_symq_reduce"):
         return x._symq_reduce(amax)
-    return _reduce(x, axis, lambda c: core.sym_max(_nonempty(c, "maximum")), getattr(x, "dtype", None))
+    return _reduce(x, axis, lambda c: _extreme(c, "maximum"), getattr(x, "dtype", None))
 
 
 def amin(x, axis=None):
     if hasattr(x, "_symq_reduce"):
         return x._symq_reduce(amin)
-    return _reduce(x, axis, lambda c: core.sym_min(_nonempty(c, "minimum")), getattr(x, "dtype", None))
+    return _reduce(x, axis, lambda c: _extreme(c, "minimum"), getattr(x, "dtype", None))
 
 
 max = amax
@@ -941,6 +1004,9 @@ def _concrete_cells(cells):
     return not builtins.any(is_sym(c) or isinstance(c, SymChoice) for c in cells)
 
 
+DEFAULT_SORT_STABLE = False   # harness switch: model numpy's default sort as stable (true for n < 16: insertion sort)
+
+
 def argsort(x, axis=-1, kind=None):
     """ANY permutation p with key[p[i]] <= key[p[i+1]] (numpy's default sort is not stable, so the
     property must hold for every such p). Symbolic keys: p is a vector of fresh symbolic integers
@@ -967,7 +1033,7 @@ def argsort(x, axis=-1, kind=None):
     keys = [_select(pi, cells) for pi in p]
     for i in range(n - 1):
         ctx.add_side(lift(_cmp(keys[i], keys[i + 1], "<=")))
-        if kind in ("stable", "mergesort"):
+        if kind in ("stable", "mergesort") or (kind is None and DEFAULT_SORT_STABLE):
             # a stable sort keeps equal keys in their original order: THE unique such permutation
             ctx.add_side(z3.Implies(lift(_cmp(keys[i], keys[i + 1], "==")), p[i].e < p[i + 1].e))
     ctx.notes.setdefault("argsort", []).append((cells, p))
@@ -976,7 +1042,7 @@ def argsort(x, axis=-1, kind=None):
 
 def sort(x, axis=-1):
     if hasattr(x, "_symq_value") and not isinstance(x, SymArray):
-        x = x._symq_value()
+        return x.__class__(sort(x._symq_value()), x.unit)      # np.sort of a Quantity is a Quantity
     x = x if isinstance(x, SymArray) else SymArray(_obj(x))
     if x.a.ndim != 1:
         raise UnsupportedByShim("sort of ndim != 1")
@@ -993,6 +1059,18 @@ def argmax(x, axis=None):
     cells = list(x.a.flat)
     if not cells:
         raise ValueError("attempt to get argmax of an empty sequence")
+    for i, c in enumerate(cells):
+        if isinstance(c, NonFinite) and c.kind == "nan":
+            return i                       # numpy: the first NaN is the arg max
+    for i, c in enumerate(cells):
+        if isinstance(c, NonFinite) and c.kind == "inf":
+            return i
+    if builtins.any(isinstance(c, NonFinite) for c in cells):
+        fin = [i for i, c in enumerate(cells) if not isinstance(c, NonFinite)]
+        if not fin:
+            return 0
+        sub = argmax(SymArray(_obj([cells[i] for i in fin])))
+        return _select(sub, fin) if is_sym(sub) else fin[sub]
     best_i, best = 0, cells[0]
     for i in range(1, len(cells)):
         c = _cmp(cells[i], best, ">")
@@ -1015,7 +1093,36 @@ def argpartition(x, kth, axis=-1):
     return argsort(x)
 
 
-def unique(x):
+def lexsort(keys, axis=-1):
+    """indirect stable sort by several keys, the LAST key being the primary one (numpy's contract)"""
+    ks = [k._symq_value() if (hasattr(k, "_symq_value") and not isinstance(k, SymArray)) else (k if isinstance(k, SymArray) else SymArray(_obj(k))) for k in keys]
+    n = len(ks[0])
+    if n <= 1:
+        return SymArray(_obj(list(range(n))), _I8)
+    ctx = core.Ctx.cur
+    z3 = core.z3
+    p = [core.fresh("int", "lperm") for _ in range(n)]
+    ctx.add_side(z3.And([z3.And(pi.e >= 0, pi.e < n) for pi in p]))
+    ctx.add_side(z3.Distinct(*[pi.e for pi in p]))
+    sel = [[_select(pi, list(k.a)) for pi in p] for k in ks]
+    for i in range(n - 1):
+        # lexicographic <= over (last key, ..., first key, original index)
+        cond = p[i].e < p[i + 1].e
+        for k in range(len(ks)):           # innermost tie-break first
+            a, b = sel[k][i], sel[k][i + 1]
+            cond = z3.Or(lift(_cmp(a, b, "<")), z3.And(lift(_cmp(a, b, "==")), cond))
+        ctx.add_side(cond)
+    return SymArray(_np.array(p, dtype=object), _I8)
+
+
+def unique(x, return_index=False, return_inverse=False, return_counts=False):
+    if return_index or return_inverse:
+        raise UnsupportedByShim("np.unique(return_index/return_inverse)")
+    if return_counts:
+        vals = unique(x)
+        xa = x._symq_value() if (hasattr(x, "_symq_value") and not isinstance(x, SymArray)) else (x if isinstance(x, SymArray) else SymArray(_obj(x)))
+        cnt = [builtins.sum(1 for c in xa.a.flat if (c.concretize() if isinstance(c, SymChoice) else (core.fork_int(c) if isinstance(c, SN) else c)) == v) for v in vals.a]
+        return vals, SymArray(_obj(cnt), _I8)
     if hasattr(x, "_symq_value") and not isinstance(x, SymArray):
         x = x._symq_value()
     x = x if isinstance(x, SymArray) else SymArray(_obj(x))
